@@ -369,7 +369,7 @@ def check_condsrf(ctx, c):
     w = Watch(ctx)
     dim = int(rng.integers(1, 3))
     n = 5
-    model = gs.Gaussian(dim=dim, var=0.5, len_scale=2.0, nugget=float(rng.choice([0.0, 0.05])))
+    model = gs.Gaussian(dim=dim, var=float(rng.choice([0.5, 1.0, 1.3])), len_scale=2.0, nugget=float(rng.choice([0.0, 0.05])))
     cp = w.add("cond_pos", _layout(rng, rng.uniform(0, 8, size=(dim, n)) if dim > 1 else rng.uniform(0, 8, size=n), c["layout"]))
     cv = w.add("cond_val", _layout(rng, rng.normal(3.0, 0.2, size=n), c["layout"]))
     kw = dict(mean=0.8, trend=_trend(dim), normalizer=gs.normalizer.LogNormal()) if rng.random() < 0.5 else {}
@@ -377,19 +377,34 @@ def check_condsrf(ctx, c):
     cs = gs.CondSRF(k, seed=5, mode_no=16)
     ctx.cell(f"condsrf/{'post' if kw else 'plain'}")
     npt = 9
-    pos = w.add("pos", _layout(rng, rng.uniform(0, 8, size=(dim, npt)) if dim > 1 else rng.uniform(0, 8, size=npt), c["layout"]))
-    r1 = cs(pos)
+    if rng.random() < 0.5:
+        # structured target grid (stored results are reshaped views there)
+        axes = tuple(w.add(f"axis[{i}]", np.sort(rng.uniform(0, 8, size=int(rng.integers(2, 5))))) for i in range(dim))
+        r1 = cs(axes if dim > 1 else axes[0], mesh_type="structured")
+        ctx.cell("condsrf/structured")
+    else:
+        pos = w.add("pos", _layout(rng, rng.uniform(0, 8, size=(dim, npt)) if dim > 1 else rng.uniform(0, 8, size=npt), c["layout"]))
+        r1 = cs(pos)
     c1 = np.array(r1, copy=True)
     kf = np.array(k.field, copy=True)
     kfo = k.field
-    ctx.event("stored_results_tracked", 2)
+    kvo = k["krige_var"]  # the kriging variance the Krige object keeps (handed out to the user by reference)
+    kv = np.array(kvo, copy=True)
+    ctx.event("stored_results_tracked", 3)
     if not w.verify("CondSRF.__call__"):
         return
     r2 = cs(seed=6, store=["f2", "r2", "k2"])
     r3 = cs(seed=7, store="f3", krige_store=["kk", "vv"])
     cs(seed=8, post_process=False)
+    # further realisations on the same positions that re-use the kriging results kept under the default names
+    r4 = cs(seed=9, store=["f4", "r4", True])
+    r5 = cs(seed=10, store=["f5", "r5", True], krige_store=[False, True])
     if not (_same(r1, c1) and _same(kfo, kf)):
         ctx.fail({"what": "earlier-result-modified", "entry": "CondSRF.__call__"}, "first conditioned / kriging field changed by later calls")
+        return
+    if not (_same(kvo, kv) and _same(k["krige_var"], kv)):
+        ctx.fail({"what": "earlier-result-modified", "entry": "CondSRF.__call__", "result": "krige_var"},
+                 f"kriging variance handed out after the first call changed during later realisations on the same positions (ratio {float(np.nanmax(np.asarray(kvo) / np.where(kv == 0, np.nan, kv))):.4f})")
         return
     w.verify("CondSRF.later-calls")
     if c["layout"] != "alias":
